@@ -209,6 +209,8 @@ def ROUND(number, digits):
     digits = utils.parse_number(digits)
     if utils.any_is_error((number, digits)):
         return error.VALUE
+    if isinstance(digits, float):
+        digits = int(digits)  # a computed number of digits (4/2) is a float
     return round(number, digits)
 
 
@@ -380,6 +382,8 @@ def DECIMAL(text, base):
     base = utils.parse_number(base)
     if isinstance(base, error.XLError):
         return base
+    if isinstance(base, float):
+        base = int(base)  # a computed radix (32/2) is a float
     try:
         dec = int(text, base)
         return (dec - 1099511627776) if (dec >= 549755813888) else dec
